@@ -6,8 +6,9 @@ PID = "C13"
 LEAN_MODULES = ['BemppVerif.Props.C13', 'BemppVerif.Gen.AsmMatch', 'BemppVerif.Props.C12Tables']
 N = "BemppVerif.C13."
 THEOREMS = []
-PARTIAL = {N + "p1_local_mass": "closed forms are proved for P1 x P1 (any rule exact to degree 2); RWG/SNC Gram forms, the "
-           "Laplace-Beltrami matrix, projections of callables, integrate/l2_norm/evaluate_* and MultiplicationOperator are "
+PARTIAL = {N + "p1_local_mass": "closed forms are proved for P1 x P1 (any rule exact to degree 2); the traced Laplace-Beltrami "
+           "local blocks equal ie_e sum_q w_q grad_i.grad_j (generated; the multipliers are applied outside the kernel, in "
+           "SparseAssembler.assemble, which is not traced); RWG/SNC Gram forms, _vector_grad_product / _curl_curl_product, projections of callables, integrate/l2_norm/evaluate_* and MultiplicationOperator are "
            "covered by the numerical oracle only"}
 TRUSTED = [
     "Tie B: assembler tracing (vlib/asmtrace.py, props/asm_gen.py) and kernel tracing (props/kernels_gen.py): the generated "
@@ -17,7 +18,7 @@ TRUSTED = [
 ]
 ASSUMPTIONS = ['the tabulated triangle rules have the exact moments to 1e-14 (C12 tri_exact)']
 RULE = 'correspondence: compiled assemblers vs their traces at random numeric configurations (Tie B validation); oracle: props/c13_oracle.py'
-LEVEL_TEXT = "Lean 4 theorems: the sparse assembler's local identity matrix equals the trace of the real sparse kernel + basis evaluator (generated), is ie(1+delta_ij)/24 for P1 x P1 for every rule exact to degree 2, sums to the element area, and x'Mx is a weighted sum of squares (PSD) for non-negative weights."
+LEVEL_TEXT = "Lean 4 theorems: the sparse assembler's local identity matrix equals the trace of the real sparse kernel + basis evaluator (generated), is ie(1+delta_ij)/24 for P1 x P1 for every rule exact to degree 2, sums to the element area, and x'Mx is a weighted sum of squares (PSD) for non-negative weights; 36 generated theorems: every local block of the traced default_sparse_kernel + laplace_beltrami_kernel (+ the real P1 surface-gradient evaluator) on P1 and DP1 equals ie_e sum_q w_q (jac_inv_trans grad_i).(jac_inv_trans grad_j) with e the element (not the position in the element list)."
 LEVEL_NOTE = 'partial: only the P1/P0 identity closed forms are theorems; the rest of the statement is oracle-only.'
 TECHNIQUE = 'Lean 4 proof (closed forms, sum of squares, generated trace-match) + numerical oracle'
 
@@ -25,7 +26,7 @@ TECHNIQUE = 'Lean 4 proof (closed forms, sum of squares, generated trace-match) 
 def generate(ctx):
     info = dict(kernels=shared.gen_kernels()[0], asm=shared.gen_asm()[0])
     THEOREMS[:] = ([N + t for t in ("p1_local_mass", "p1_local_mass_sums_to_area", "local_identity_psd")]
-                   + shared.asm_theorems("identity_matches") + ["BemppVerif.C12.tri_exact"])
+                   + shared.asm_theorems("identity_matches") + shared.mx_theorems("C13") + ["BemppVerif.C12.tri_exact"])
     return info
 
 
